@@ -27,6 +27,7 @@ Do(e) ==
   \/ e.op = "create_user" /\ CreateUser(e.pw)
   \/ e.op = "remove_user" /\ RemoveUser(e.u)
   \/ e.op = "verify" /\ Verify(e.u, e.pw)
+  \/ e.op = "exists" /\ Exists(e.u)
   \/ e.op = "create_session" /\ CreateSession(e.u, e.life)
   \/ e.op = "refresh_session" /\ Refresh(e.tok)
   \/ e.op = "invalidate_session" /\ Invalidate(e.tok)
